@@ -47,6 +47,10 @@ pub struct Mon {
     pub at_commit: u32,
     pub at_persist: u32,
     pub at_broadcast: u32,
+    /// largest frame id made visible in the primary partition so far, and whether a frame ever
+    /// became visible BELOW it (a reader polling in between would have seen the larger id first)
+    pub max_visible: u128,
+    pub visible_order_violation: bool,
 }
 pub const MON0: Mon = Mon {
     batches: 0,
@@ -73,6 +77,8 @@ pub const MON0: Mon = Mon {
     at_commit: 0,
     at_persist: 0,
     at_broadcast: 0,
+    max_visible: 0,
+    visible_order_violation: false,
 };
 pub static mut MON: Mon = MON0;
 
@@ -136,6 +142,19 @@ pub fn push(e: Ev) {
                 m.ids_assigned += 1;
                 m.last_id = id;
             }
+        }
+    }
+}
+
+/// called by the fjall model when a key becomes visible in the primary (`stream`) partition
+#[allow(static_mut_refs)]
+pub fn visible(id: u128) {
+    unsafe {
+        if id < MON.max_visible {
+            MON.visible_order_violation = true;
+        }
+        if id > MON.max_visible {
+            MON.max_visible = id;
         }
     }
 }
